@@ -427,7 +427,8 @@ def run(ck):
                         else:
                             break
                     if any(c[0] == "mcall" and c[2] == "apply" for c in chain):
-                        g = any(f2.get(T.mk_attr(c, "empty")) is False for c in chain) or any(f2.get(c) is True for c in chain)
+                        g = any(f2.get(T.mk_attr(c, "empty")) is False for c in chain) or any(f2.get(c) is True for c in chain) or \
+                            any(T.specialize(T.as_bool(T.mk_attr(c, "empty")), f2, boolpos=True) == C(False) for c in chain)
                         detail = "apply(...).tolist() guarded by .empty" if g else "apply(...).tolist() unguarded"
                         ok = ok and g
     ck.judge(ok, "C18.4", short(ra), ra.where, "a zero-record XMAP is read back as an empty list", found=detail,
@@ -451,7 +452,7 @@ def all_records_parsed(ck, rule="C18.5"):
         for x in T.subterms(pa.value):
             if x[0] == "mcall" and x[2] == "apply":
                 n += 1
-                frame = x[1]
+                frame = T.specialize(x[1], dict(pa.facts))      # a filter written as `frame[...] if ids else frame`: no ids here
                 ok = frame[0] == "app" and frame[1].endswith("BionanoFileReader.readFile")
                 if ok:
                     ck.ok(rule, short(ra) + ":all-rows", where(ra, pa.node), "with no id filter the parsed frame is exactly what was read")
